@@ -218,7 +218,7 @@ func c03StartWireOnce(l *c03Lists, withDNSCrypt bool) (w *c03Wire, err error) {
 		TLSConf: &TLSConfig{
 			Cert:           cert,
 			TLSListenAddrs: []*net.TCPAddr{{IP: lo, Port: tlsPort}},
-			ServerName:     c03SrvName,
+			ServerName:     map[bool]string{false: c03SrvName, true: ""}[l.NoServerName],
 		},
 		Config: Config{
 			UpstreamMode:      UpstreamModeLoadBalance,
@@ -432,7 +432,10 @@ type c03WireCase struct {
 	Transport string `json:"transport"` // udp, tcp, tls, dnscrypt-udp, dnscrypt-tcp, doh
 	// Fwd is, for DoH, a forwarding header ("Name: address") with which the
 	// peer claims to speak for another client.
-	Fwd   string `json:"forwarding_header,omitempty"`
+	Fwd string `json:"forwarding_header,omitempty"`
+	// NoTLS: the DoH request arrives without TLS state (plain HTTP behind a
+	// proxy, allow_unencrypted_doh).
+	NoTLS bool   `json:"doh_without_tls_state,omitempty"`
 	Src   string `json:"source_address"`
 	ID    string `json:"client_id,omitempty"`
 	Name  string `json:"qname"`
@@ -536,6 +539,9 @@ func c03Send(w *c03Wire, c *c03WireCase, fenceNo int, wantReply bool) (o c03Wire
 		hr := httptest.NewRequest(http.MethodPost, "https://"+c03SrvName+path, bytes.NewReader(b))
 		hr.RemoteAddr = net.JoinHostPort(c.Src, fmt.Sprint(20000+fenceNo%20000))
 		hr.TLS = &tls.ConnectionState{ServerName: c03SrvName}
+		if c.NoTLS {
+			hr.TLS = nil
+		}
 		hr.Header.Set("Content-Type", "application/dns-message")
 		hr.Header.Set("Accept", "application/dns-message")
 		if c.Fwd != "" {
@@ -701,6 +707,7 @@ func TestVerifC03Sockets(t *testing.T) {
 		{"doh:refused", 20}, {"doh:admitted", 20}, {"doh_forwarding_header_claims_a_client_decided_the_other_way", 20},
 		{"doh_forwarding_header:trusted_proxies_explicitly_empty", 20},
 		{"protection_paused:refused_by_name_only", 10}, {"protection_off:refused_by_name_only", 5},
+		{"no_server_name:clientid_in_doh_path", 10},
 		{"special_name:refused", 40}, {"ddr_name:refused:handle_ddr=true", 5},
 		{"refused_by_name", 10}, {"refused_by_client", 30}, {"tls_admitted_by_clientid_only", 2}} {
 		if n := rep.ClassCount(need.class); n < need.min {
@@ -713,6 +720,7 @@ func c03RunWireConf(rep *verifkit.Report, rng *rand.Rand, idx, perConf int) {
 	l := c03GenWireLists(rng)
 	l.HandleDDR = rng.Intn(4) != 0
 	l.Protection = c03ProtectionStates[rng.Intn(len(c03ProtectionStates))]
+	l.NoServerName = rng.Intn(4) == 0
 	switch rng.Intn(8) {
 	case 0, 1:
 		// not configured
@@ -818,6 +826,24 @@ func c03RunWireConf(rep *verifkit.Report, rng *rand.Rand, idx, perConf int) {
 
 		src := netip.MustParseAddr(c.Src)
 		cv := c03DecideClient(allow, deny, src, c.ID)
+		if c.Transport == "doh" {
+			c.NoTLS = rng.Intn(3) == 0
+		}
+		if l.NoServerName && c.ID != "" {
+			if c.Transport == "tls" {
+				// Without a configured server name a ClientID in the SNI
+				// cannot be recognised: decided only when it does not matter.
+				if cv0 := c03DecideClient(allow, deny, src, ""); cv0.Specified != cv.Specified || cv0.Excluded != cv.Excluded {
+					cv.Specified = false
+					cv.Zones = append(cv.Zones, c03ZoneNoName)
+				}
+			} else if c.Transport == "doh" {
+				rep.Class("no_server_name:clientid_in_doh_path")
+				if cv0 := c03DecideClient(allow, deny, src, ""); cv.Specified && cv0.Specified && cv0.Excluded != cv.Excluded {
+					rep.Class("no_server_name:doh_path_clientid_decides")
+				}
+			}
+		}
 		nameBlocked, by, _ := c03NameBlocked(pats, c.Name, c.qtype)
 		fwdUnspec := false
 		if c.Transport == "doh" && rng.Intn(3) != 0 {
